@@ -251,3 +251,11 @@ func cmdGen(args []string) int {
 	fmt.Println()
 	return 0
 }
+
+func strHash(s string) uint64 {
+	h := uint64(14695981039346656037)
+	for i := 0; i < len(s); i++ {
+		h = (h ^ uint64(s[i])) * 1099511628211
+	}
+	return h
+}
